@@ -3060,8 +3060,10 @@ def unique_for_indexed_string(indices, values, return_index, return_inverse, ret
         combined_result.append(np.array(unique_index)[indices_sort])
     if return_inverse:
         unique_inverse = np.array(unique_inverse)
+        # indices_sort[k] is the discovery position of the k-th sorted value; the inverse needs the opposite direction
+        sorted_position = np.argsort(indices_sort)
         for i in range(0, len(unique_inverse)):
-            unique_inverse[i] = indices_sort[unique_inverse[i]]
+            unique_inverse[i] = sorted_position[unique_inverse[i]]
         combined_result.append(unique_inverse)
     if return_counts:
         combined_result.append(np.array(unique_counts)[indices_sort])
